@@ -26,7 +26,7 @@ def FLOORS(tier):
     f = {"temperature-range-calls": 600 if q else 20000, "temperature:no-variables": 40, "temperature:zero-prob": 80,
          "temperature:equal-probs": 40, "constant-model": 60, "raw-repeated-labels": 40, "real-coefficients": 150,
          "temperature:stale-model": 20, "second-look-checks": 500 if q else 20000, "second-look:cancel-all": 40, "second-look:clear": 40, "exact-arithmetic": 100,
-         "dict-with-zero-coefficients": 60, "temperature:dict-with-zero-coefficients": 20, "raw-diagonal-keys": 100, "tiny-scale": 150, "temperature:alias-spellings-cancel": 10,
+         "dict-with-zero-coefficients": 60, "temperature:dict-with-zero-coefficients": 20, "raw-diagonal-keys": 100, "tiny-scale": 150, "many-terms": 4, "temperature:alias-spellings-cancel": 10,
          "temperature:single-scale-model": 80}
     for fn in FN:
         f["fn:" + fn] = 300 if q else 15000
@@ -113,9 +113,20 @@ def case(ctx, rng, idx):
             ctx.cat("raw-diagonal-keys")
         if raw and any(len(set(k)) < len(k) for k in terms):
             ctx.cat("raw-repeated-labels")
-    if not real and rng.random() < 0.1:
-        # the same model in very small units: a coefficient of 1e-21 is a coefficient, not rounding noise
-        terms = {k: v * 2.0 ** -70 for k, v in terms.items()}
+    if not real and tn == "dict" and not d2 and rng.random() < 0.03:
+        # a dense model: well over a hundred terms, most of one sign
+        labs = list(range(8)) if rng.random() < 0.5 else ["v%d" % i for i in range(8)]
+        sign = rng.choice([1, -1])
+        mixed = rng.random() < 0.4          # otherwise every term has the same sign: the bound is attained at all ones
+        terms = {}
+        for mask in range(1, 256):
+            if rng.random() < 0.75:
+                terms[tuple(labs[j] for j in range(8) if (mask >> j) & 1)] = sign * rng.choice([1, 2, 3, 0.5]) * (-1 if (mixed and rng.random() < 0.1) else 1)
+        ctx.cat("many-terms")
+    if not real and rng.random() < 0.12:
+        # the same model in very small units: a coefficient of 1e-21 (or 1e-121) is a coefficient, not rounding noise
+        sc_ = rng.choice([2.0 ** -70, 2.0 ** -400])
+        terms = {k: v * sc_ for k, v in terms.items()}
         ctx.cat("tiny-scale")
     m = dict(terms) if tn == "dict" else gen.model_of(getattr(L, tn), terms)
     if tn == "dict" and rng.random() < 0.15:
